@@ -107,13 +107,18 @@ type Request struct {
 }
 
 type desc struct {
-	Kind     string       `json:"kind"` // single | conc | pair (reqs[0] is stopped in its handler until reqs[1] is done)
+	Kind     string       `json:"kind"` // single | conc | pair (reqs[0] is stopped in its handler until reqs[1] is done) | flood
 	Service  string       `json:"service"`
 	Patterns []PatternDef `json:"patterns"`
 	Req      Request      `json:"req"`            // single
 	Reqs     []Request    `json:"reqs,omitempty"` // conc
 	Workers  int          `json:"workers,omitempty"`
-	Twice    bool         `json:"read_twice,omitempty"`      // pair: the stopped handler also reads before stopping
+	Twice    bool         `json:"read_twice,omitempty"` // pair: the stopped handler also reads before stopping
+	GenSeed  uint64       `json:"gen_seed,omitempty"`   // flood: the requests are regenerated from this (they are left out of the stored description)
+	InCh     int          `json:"in_channel_size,omitempty"`
+	Held     int          `json:"held,omitempty"`  // flood: reqs[:held] are stopped in their handlers (one per worker) while reqs[held:held+flood] are delivered
+	Flood    int          `json:"flood,omitempty"` // flood: the rest, reqs[held+flood:], is sent after release and quiescence
+	Late     int          `json:"late,omitempty"`
 	Lookups  int          `json:"lookups,omitempty"`         // conc: goroutines calling Service.With / Service.Resource all the time ...
 	LookupPs []string     `json:"lookup_patterns,omitempty"` // ... on fresh names of these patterns (other resources, same token counts)
 	Procs    int          `json:"gomaxprocs,omitempty"`      // pair: run with this GOMAXPROCS (1 = both requests share per-P caches such as sync.Pool's)
@@ -610,13 +615,14 @@ type recorder struct {
 	keyed bool
 	logs  map[string][]string
 	yield int // runtime.Gosched calls before a handler reads the request
-	// overlap pair: the handler serving resource gateName stops on entry until released
-	gateName string
-	gateOnce sync.Once
-	entered  chan struct{}
-	release  chan struct{}
-	twice    bool // it also reads the request before stopping; both reads must agree
-	viol     []string
+	// the (first) handler invocation serving a resource in gateNames stops on entry until released
+	gateNames map[string]bool
+	gateUsed  map[string]bool
+	cur       map[string]string // resource name -> key of the request being served on it (same group: one at a time)
+	entered   chan struct{}     // one token per stopped handler
+	release   chan struct{}
+	twice     bool // it also reads the request before stopping; both reads must agree
+	viol      []string
 }
 
 func (r *recorder) add(key, s string) {
@@ -632,6 +638,37 @@ func (r *recorder) add(key, s string) {
 		}
 	}
 	r.mu.Unlock()
+}
+
+// requests are told apart by what comes from their subject: resource name, type and method
+func reqKey(rname, typ, method string) string { return rname + "|" + typ + "|" + method }
+
+func (r *recorder) setCur(rname, key string) {
+	r.mu.Lock()
+	if r.cur == nil {
+		r.cur = map[string]string{}
+	}
+	r.cur[rname] = key
+	r.mu.Unlock()
+}
+
+func (r *recorder) curOf(rname string) string {
+	r.mu.Lock()
+	defer r.mu.Unlock()
+	return r.cur[rname]
+}
+
+func (r *recorder) takeGate(rname string) bool {
+	r.mu.Lock()
+	defer r.mu.Unlock()
+	if !r.gateNames[rname] || r.gateUsed[rname] {
+		return false
+	}
+	if r.gateUsed == nil {
+		r.gateUsed = map[string]bool{}
+	}
+	r.gateUsed[rname] = true
+	return true
 }
 
 func (r *recorder) logOf(key string) []string {
@@ -832,29 +869,26 @@ func (h hctx) runOuter(r *res.Request, script []Action) {
 			AMap(r.PathParams()), B(r.Query()), B(r.Group()), B(r.CID()), B(string(r.RawToken())), B(string(r.RawParams())),
 			pHdr(r.Header()), B(r.Host()), B(r.RemoteAddr()), B(r.URI()), Bool(r.IsHTTP()))
 	}
-	gated := false
-	if h.rec.gateName != "" && h.rec.gateName == rn {
-		h.rec.gateOnce.Do(func() {
-			gated = true
-			first := ""
-			if h.rec.twice {
-				first = read()
-			}
-			close(h.rec.entered)
-			select {
-			case <-h.rec.release:
-			case <-time.After(8 * time.Second):
-			}
-			second := read()
-			if h.rec.twice && first != second {
-				h.rec.mu.Lock()
-				h.rec.viol = append(h.rec.viol, "the request read by the handler changed while another request was processed: before "+first+" after "+second)
-				h.rec.mu.Unlock()
-			}
-			h.rec.add(rn, second)
-		})
-	}
-	if !gated {
+	rn = reqKey(rn, r.Type(), r.Method()) // from here on: the key of this request's records
+	h.rec.setCur(r.ResourceName(), rn)
+	if h.rec.takeGate(r.ResourceName()) {
+		first := ""
+		if h.rec.twice {
+			first = read()
+		}
+		h.rec.entered <- struct{}{}
+		select {
+		case <-h.rec.release:
+		case <-time.After(20 * time.Second):
+		}
+		second := read()
+		if h.rec.twice && first != second {
+			h.rec.mu.Lock()
+			h.rec.viol = append(h.rec.viol, "the request read by the handler changed while another request was processed: before "+first+" after "+second)
+			h.rec.mu.Unlock()
+		}
+		h.rec.add(rn, second)
+	} else {
 		for i := 0; i < h.rec.yield; i++ {
 			runtime.Gosched()
 		}
@@ -923,7 +957,7 @@ func (h hctx) runOuter(r *res.Request, script []Action) {
 // the get handler called through Value(): r is the in-memory get request; only the
 // GetRequest interface exists, other actions cannot be written and are skipped
 func (h hctx) runNested(r res.GetRequest, script []Action) {
-	h.rec.add(r.ResourceName(), fmt.Sprintf("LInvoke (Obs %d %s %s [] [] %s %s %s %s [] [] [] [] [] [] [] false)",
+	h.rec.add(h.rec.curOf(r.ResourceName()), fmt.Sprintf("LInvoke (Obs %d %s %s [] [] %s %s %s %s [] [] [] [] [] [] [] false)",
 		h.pid, pHid(h.kind, h.key), Bool(r.ForValue()), B(r.ResourceName()), AMap(r.PathParams()), B(r.Query()), B(r.Group())))
 	for _, a := range script {
 		switch a.Op {
@@ -968,6 +1002,9 @@ func buildService(d desc, rec *recorder) *res.Service {
 	s.SetLogger(nil)
 	if d.Workers > 0 {
 		s.SetWorkerCount(d.Workers)
+	}
+	if d.InCh > 0 {
+		s.SetInChannelSize(d.InCh)
 	}
 	for _, p := range d.Patterns {
 		p := p
@@ -1079,8 +1116,11 @@ func msgTerm(rq Request) string {
 	default:
 		data = "(InJson " + pReqData(rq.Data) + ")"
 	}
-	return "(Msg " + B(rq.Subject) + " " + B(rq.Reply) + " " + data + ")"
+	// + the independent judgement on the exact bytes sent (json.Valid; an empty payload counts as fine)
+	return "(Msg " + B(rq.Subject) + " " + B(rq.Reply) + " " + data + ") " + Bool(payloadIsJSON(rq.Payload))
 }
+
+func payloadIsJSON(p string) bool { return len(p) == 0 || json.Valid([]byte(p)) }
 
 // same shape as the library's request struct: encoding/json (trusted) yields the
 // same error text, up to the package name in the type's name
@@ -1136,7 +1176,14 @@ func (h *doneHub) clear() {
 	h.ch = map[string]chan struct{}{}
 	h.mu.Unlock()
 }
+
+var enqCount int64
+
 func (h *doneHub) note(pt, s string, n int) {
+	if pt == "enq-new" || pt == "enq-append" {
+		atomic.AddInt64(&enqCount, 1)
+		return
+	}
 	if pt != "request-done" {
 		return
 	}
@@ -1335,7 +1382,7 @@ func runConc(d desc) []string {
 				ps = append(ps, p)
 			}
 		}
-		terms[i] = fmt.Sprintf("RC %s %s %s true %s %s %s %s", routeTerm(s, d, rq), partsTerm(rq), msgTerm(rq), pPubs(ps, rq.Reply), List(rec.logOf(rq.Parts[1])), Bool(doneBy[rq.Subject]), Bool(probeOK))
+		terms[i] = fmt.Sprintf("RC %s %s %s true %s %s %s %s", routeTerm(s, d, rq), partsTerm(rq), msgTerm(rq), pPubs(ps, rq.Reply), List(rec.logOf(reqKey(rq.Parts[1], rq.Parts[0], rq.Parts[2]))), Bool(doneBy[rq.Subject]), Bool(probeOK))
 	}
 	s.Shutdown()
 	select {
@@ -1346,6 +1393,92 @@ func runConc(d desc) []string {
 	return terms
 }
 
+// every worker is occupied by a stopped handler while many requests on other resources are
+// delivered; nothing may be lost: after release each of them gets its response
+func runFlood(d desc) ([]string, []string) {
+	held, flood, late := d.Reqs[:d.Held], d.Reqs[d.Held:d.Held+d.Flood], d.Reqs[d.Held+d.Flood:]
+	gates := map[string]bool{}
+	for _, rq := range held {
+		gates[rq.Parts[1]] = true
+	}
+	rec := &recorder{keyed: true, gateNames: gates, entered: make(chan struct{}, len(held)), release: make(chan struct{})}
+	s, conn, served := startService(d, rec)
+	chs := map[string]chan struct{}{}
+	for _, rq := range d.Reqs {
+		chs[rq.Subject] = hub.expect(rq.Subject)
+	}
+	var viol []string
+	send := func(rq Request) {
+		conn.inCh <- &nats.Msg{Subject: rq.Subject, Reply: rq.Reply, Data: []byte(rq.Payload)}
+	}
+	for _, rq := range held {
+		send(rq)
+	}
+	for range held {
+		if !wait(rec.entered, 5*time.Second) {
+			viol = append(viol, "harness: not every worker could be occupied by a stopped handler")
+			break
+		}
+	}
+	// deliver from a goroutine: the in-channel is small; the listener only enqueues, so it keeps draining
+	before := atomic.LoadInt64(&enqCount)
+	fed := make(chan struct{})
+	go func() {
+		for _, rq := range flood {
+			send(rq)
+		}
+		close(fed)
+	}()
+	wait(fed, 10*time.Second)
+	for t0 := time.Now(); atomic.LoadInt64(&enqCount)-before < int64(len(flood)) && time.Since(t0) < 5*time.Second; {
+		time.Sleep(200 * time.Microsecond)
+	}
+	if n := atomic.LoadInt64(&enqCount) - before; n != int64(len(flood)) {
+		viol = append(viol, fmt.Sprintf("harness: %d of %d delivered requests were handed to the work queue", n, len(flood)))
+	}
+	close(rec.release)
+	// quiescence: one shared deadline, lost requests never complete
+	deadline := time.Now().Add(3 * time.Second)
+	done := map[string]bool{}
+	for _, rq := range d.Reqs[:d.Held+d.Flood] {
+		rem := time.Until(deadline)
+		if rem < 0 {
+			rem = 0
+		}
+		done[rq.Subject] = wait(chs[rq.Subject], rem+time.Millisecond)
+	}
+	// the resources must still be served afterwards
+	for _, rq := range late {
+		send(rq)
+	}
+	deadline = time.Now().Add(2 * time.Second)
+	for _, rq := range late {
+		rem := time.Until(deadline)
+		if rem < 0 {
+			rem = 0
+		}
+		done[rq.Subject] = wait(chs[rq.Subject], rem+time.Millisecond)
+	}
+	probeOK := probe(s, conn, d, "f")
+	all := conn.snapshot()
+	byReply := map[string][]pub{}
+	for _, p := range all {
+		byReply[p.subj] = append(byReply[p.subj], p)
+	}
+	terms := make([]string, len(d.Reqs))
+	for i, rq := range d.Reqs {
+		terms[i] = fmt.Sprintf("RC %s %s %s true %s %s %s %s", routeTerm(s, d, rq), partsTerm(rq), msgTerm(rq), pPubs(byReply[rq.Reply], rq.Reply),
+			List(rec.logOf(reqKey(rq.Parts[1], rq.Parts[0], rq.Parts[2]))), Bool(done[rq.Subject]), Bool(probeOK))
+	}
+	s.Shutdown()
+	select {
+	case <-served:
+	case <-time.After(5 * time.Second):
+	}
+	hub.clear()
+	return terms, viol
+}
+
 // request A (reqs[0]) is stopped inside its handler - after entry, before it reads anything - until
 // request B (reqs[1], another resource, hence another worker group) has been processed completely
 func runPair(d desc) ([]string, []string) {
@@ -1353,7 +1486,7 @@ func runPair(d desc) ([]string, []string) {
 	if d.Procs > 0 {
 		defer runtime.GOMAXPROCS(runtime.GOMAXPROCS(d.Procs))
 	}
-	rec := &recorder{keyed: true, gateName: a.Parts[1], entered: make(chan struct{}), release: make(chan struct{}), twice: d.Twice}
+	rec := &recorder{keyed: true, gateNames: map[string]bool{a.Parts[1]: true}, entered: make(chan struct{}, 1), release: make(chan struct{}), twice: d.Twice}
 	s, conn, served := startService(d, rec)
 	ca, cb := hub.expect(a.Subject), hub.expect(b.Subject)
 	conn.inCh <- &nats.Msg{Subject: a.Subject, Reply: a.Reply, Data: []byte(a.Payload)}
@@ -1383,7 +1516,7 @@ func runPair(d desc) ([]string, []string) {
 		if i == 1 {
 			done = doneB
 		}
-		terms[i] = fmt.Sprintf("RC %s %s %s true %s %s %s %s", routeTerm(s, d, rq), partsTerm(rq), msgTerm(rq), pPubs(ps, rq.Reply), List(rec.logOf(rq.Parts[1])), Bool(done), Bool(probeOK))
+		terms[i] = fmt.Sprintf("RC %s %s %s true %s %s %s %s", routeTerm(s, d, rq), partsTerm(rq), msgTerm(rq), pPubs(ps, rq.Reply), List(rec.logOf(reqKey(rq.Parts[1], rq.Parts[0], rq.Parts[2]))), Bool(done), Bool(probeOK))
 	}
 	s.Shutdown()
 	select {
@@ -1401,7 +1534,7 @@ func crashedTerms(d desc) []string {
 	one := func(rq Request, conc bool) string {
 		return fmt.Sprintf("RC %s %s %s %s [] [] false false", routeTerm(s, d, rq), partsTerm(rq), msgTerm(rq), Bool(conc))
 	}
-	if d.Kind == "conc" || d.Kind == "pair" {
+	if d.Kind == "conc" || d.Kind == "pair" || d.Kind == "flood" {
 		ts := make([]string, len(d.Reqs))
 		for i, rq := range d.Reqs {
 			ts[i] = one(rq, true)
@@ -1430,6 +1563,8 @@ func childMain(file string, from int) {
 			r.Lookups = lookupsMade
 		} else if ds[i].Kind == "pair" {
 			r.Terms, r.Viol = runPair(ds[i])
+		} else if ds[i].Kind == "flood" {
+			r.Terms, r.Viol = runFlood(ds[i])
 		} else {
 			r.Terms = []string{runSingle(ds[i])}
 		}
@@ -1970,6 +2105,81 @@ func malformed(r *Rng, prop string, seq int, k int) desc {
 	return d
 }
 
+// payloads around the border of "is JSON": a valid payload followed by more bytes, two values, whitespace variants
+var trailers = []struct {
+	pre, post string
+	valid     bool
+}{
+	{"", " trailing", false}, {"", "}", false}, {"", `{"cid":"x"}`, false}, {"", "\x00", false}, {"", " ", true},
+	{"\t\n ", "\r\n", true}, {"", ",", false}, {"", "\n{}", false}, {"", " x", false}, {"", " null", false},
+	{"\xef\xbb\xbf", "", false}, {"", "\v", false}, {"", "//c", false}, {" ", "\n\n\t", true}, {"", "]", false}, {"", `""`, false},
+}
+
+func genTrailing(r *Rng, prop string, seq, k int) desc {
+	types := []string{"call", "auth", "get", "access"}
+	pk := []string{"partial", "full", "obj", "null", "partial"}[r.Intn(5)]
+	d := genCase(r, shape{typ: types[r.Intn(4)], mcase: "named", present: true, hpresent: true, pkind: pk}, prop, seq)
+	t := trailers[k%len(trailers)]
+	d.Req.Payload = t.pre + d.Req.Payload + t.post
+	if !t.valid {
+		d.Req.PKind = "bad"
+		d.Req.Data = ReqData{}
+	}
+	if payloadIsJSON(d.Req.Payload) != t.valid {
+		panic("harness: trailer table disagrees with json.Valid on " + strconv.Quote(d.Req.Payload))
+	}
+	return d
+}
+
+// a service with a small in-channel (= initial work queue capacity) and few workers, all of them held in
+// stopped handlers, while many requests on distinct (and some repeated) resources are delivered
+func genFlood(prop string, gseed uint64, idx, inCh, workers, nflood, nlate int) desc {
+	r := NewRng(gseed)
+	d := desc{Kind: "flood", Service: "fl", GenSeed: gseed, InCh: inCh, Workers: workers, Flood: nflood, Late: nlate}
+	d.Held = workers
+	if workers == 0 {
+		d.Held = 32
+	}
+	qh := loadHandlers(r, 0, true)
+	d.Patterns = []PatternDef{{Pattern: "q.$id", H: qh},
+		{Pattern: "hold.$id", H: Handlers{Pid: 1, Call: map[string][]Action{"hold": {{Op: "reply", Kind: "ok", V: &Val{K: "str", S: "held"}}}}}}}
+	reply := func(k int) string { return fmt.Sprintf("_INBOX.%s.fl%d.%d", prop, idx, k) }
+	n := 0
+	for i := 0; i < d.Held; i++ {
+		rn := fmt.Sprintf("fl.hold.h%d", i)
+		d.Reqs = append(d.Reqs, Request{Parts: []string{"call", rn, "hold"}, Subject: "call." + rn + ".hold", Reply: reply(n), PKind: "empty"})
+		n++
+	}
+	pkOf := func() int {
+		if r.Chance(75) {
+			return 8 // empty
+		}
+		return r.Intn(10)
+	}
+	call := func(rn, m string) Request {
+		rq := loadRequest(r, reply(n), rn, 9000+n, []string{m}, pkOf())
+		rq.Parts = []string{"call", rn, m}
+		rq.Subject = "call." + rn + "." + m
+		return rq
+	}
+	var used []string
+	for k := 0; k < nflood; k++ {
+		if len(used) > 4 && r.Chance(20) {
+			d.Reqs = append(d.Reqs, call(used[r.Intn(len(used))], fmt.Sprintf("m%d", k))) // a resource that already has pending work
+		} else {
+			rn := fmt.Sprintf("fl.q.r%d", k)
+			used = append(used, rn)
+			d.Reqs = append(d.Reqs, loadRequest(r, reply(n), rn, 9000+n, []string{"set", "login", "new", "zzz"}, pkOf()))
+		}
+		n++
+	}
+	for k := 0; k < nlate; k++ {
+		d.Reqs = append(d.Reqs, call(used[r.Intn(len(used))], fmt.Sprintf("late%d", k)))
+		n++
+	}
+	return d
+}
+
 // request payload whose every field is unique to the request id and of a length depending on it
 func uniqData(r *Rng, id int, kind string) (ReqData, string) {
 	pad := func(n int) string { return strings.Repeat("x", n) }
@@ -2177,6 +2387,9 @@ func main() {
 		if err := LoadReplay(o.Replay, &d); err != nil {
 			panic(err)
 		}
+		if d.Kind == "flood" && len(d.Reqs) == 0 {
+			d = genFlood(*prop, d.GenSeed, 0, d.InCh, d.Workers, d.Flood, d.Late)
+		}
 		if d.Kind == "conc" && len(d.Reqs) == 0 {
 			d.Kind = "single"
 		}
@@ -2265,6 +2478,14 @@ func main() {
 			}
 			add(genCase(r, sh, *prop, seq))
 		}
+		// (b') payloads that start with a valid JSON value
+		nt := 5 * len(trailers)
+		if o.Tier == "thorough" {
+			nt = 60 * len(trailers)
+		}
+		for k := 0; k < nt; k++ {
+			add(genTrailing(r, *prop, seq, k))
+		}
 		// (c) malformed subjects / no reply subject
 		for k := 0; k < 10; k++ {
 			add(malformed(r, *prop, seq, k))
@@ -2280,6 +2501,18 @@ func main() {
 		// (d') routing of requests with many path params while With / Resource lookups run on other goroutines
 		for k := 0; k < rounds; k++ {
 			add(genRouteRace(r, *prop, k, 200))
+		}
+		// (d'') more pending work items than the work queue's initial capacity while every worker is busy
+		floods := [][2]int{{1, 1}, {2, 1}, {4, 2}, {1, 2}, {2, 2}, {4, 1}}
+		for fi, f := range floods {
+			add(genFlood(*prop, r.Next(), fi, f[0], f[1], 40, 6))
+		}
+		if o.Tier == "thorough" {
+			for fi := 0; fi < 12; fi++ {
+				add(genFlood(*prop, r.Next(), 100+fi, 1+r.Intn(8), 1+r.Intn(3), 30+r.Intn(200), 10))
+			}
+			add(genFlood(*prop, r.Next(), 200, 0, 0, 3000, 20)) // the library's defaults: 1024 / 32
+			add(genFlood(*prop, r.Next(), 201, 64, 0, 400, 20))
 		}
 		// (e) deterministic overlap of two requests on different worker groups
 		pairs := 60
@@ -2303,8 +2536,27 @@ func main() {
 			tag := "overlap-pair"
 			if d.Kind == "conc" {
 				tag = "routing"
+			} else if d.Kind == "flood" {
+				tag = "queue-flood"
 			}
 			impl = append(impl, ImplViolation{What: v, Desc: d, Tags: []string{tag}})
+		}
+		if d.Kind == "flood" {
+			compact := d
+			compact.Reqs, compact.Patterns = nil, nil
+			for j, t := range terms[i] {
+				role := "flooding-request"
+				if j < d.Held {
+					role = "held-request"
+				} else if j >= d.Held+d.Flood {
+					role = "late-request"
+				}
+				c := Case{Term: t, Desc: compact, Nontrivial: true, Tags: []string{"queue-flood", role}, Key: t}
+				dist["flood-member"]++
+				dist["type:"+d.Reqs[j].Parts[0]]++
+				cases = append(cases, c)
+			}
+			continue
 		}
 		if d.Kind == "pair" {
 			for j, t := range terms[i] {
